@@ -5,7 +5,8 @@
     and the cache (contents, usage order, byte counter) with what the real
     Checker did on the real cache. *)
 From Coq Require Export Uint63.
-From AGH Require Import Base.Run Base.Bytes Model.HashPrefix Model.HashPrefixBytes Model.HashPrefixLRU.
+From AGH Require Import Base.Run Base.Bytes Model.HashPrefix Model.HashPrefixBytes Model.HashPrefixLRU
+  Model.HashPrefixGlue.
 Local Open Scope Z_scope.
 
 (** Byte strings of the case terms arrive packed, seven bytes to a primitive
@@ -49,6 +50,15 @@ Inductive cop :=
   (* the scripted service's database changes: strings removed, strings added *)
   | CDb (add del : list bytes).
 
+(** One [DNSFilter.CheckHost] call: the settings of the request, scripted
+    failure of either upstream, the name as spelled; observed: for each
+    checker whether the glue called it, with which name, and the question it
+    sent (if any); the reason (0 not filtered, 1 safe browsing, 2 parental)
+    and whether CheckHost returned an error. *)
+Inductive greq :=
+  | GReq (prot filt sbe pce : bool) (fail_sb fail_pc : bool) (spelled : bytes)
+         (obs_sb obs_pc : option (bytes * option bytes)) (obs_reason : Z) (obs_err : bool).
+
 Inductive case :=
   | Case (suffix : bytes) (cache_time_s : Z)
          (max : Z)                                      (* Config.CacheSize in bytes, 0 = unlimited *)
@@ -59,7 +69,13 @@ Inductive case :=
   (* one check through DNSFilter.CheckHost on a fresh Checker: the name as
      spelled in the request; observed: question sent, blocked *)
   | CaseVia (suffix : bytes) (sha_tbl : list (bytes * bytes)) (ps_tbl : list (bytes * (bytes * bool)))
-            (db : list bytes) (spelled : bytes) (obs_q : option bytes) (obs_blocked : bool).
+            (db : list bytes) (spelled : bytes) (obs_q : option bytes) (obs_blocked : bool)
+  (* round 5: a history of requests through ONE DNSFilter with a real Checker
+     for each service behind a recording wrapper, each on its own scripted
+     upstream with its own database (constant over the history) *)
+  | CaseGlue (sfx_sb sfx_pc : bytes) (sha_tbl : list (bytes * bytes))
+             (ps_tbl : list (bytes * (bytes * bool)))      (* PublicSuffix of every lower-case host, with its section flag *)
+             (db_sb db_pc : list bytes) (reqs : list greq).
 
 Definition lookup {V} (tbl : list (bytes * V)) (k : bytes) : option V :=
   match find (fun e => eqb_bytes (fst e) k) tbl with Some e => Some (snd e) | None => None end.
@@ -150,6 +166,54 @@ Definition model_run (c : case) :=
       [((parse_txt db, (0, lru_empty)),
         Some (snd (check_host (sha_of sha_tbl) (ps_of ps_tbl) suffix (3600 * ns_sec)
                               (raw_service db false) [] [] 0 spelled [])), [])]
+  | CaseGlue _ _ _ _ _ _ _ => []
+  end.
+
+(** The glue on the two Checkers of the model, caches threaded through the
+    history; the clock stands still (cache time one hour, a history takes
+    milliseconds); the caches are unlimited, so no Set evicts and the order of
+    the Go map does not matter: any order that covers every prefix will do. *)
+Definition reason_code (r : reason) : Z :=
+  match r with RNotFiltered => 0 | RSafeBrowsing => 1 | RParental => 2 end.
+
+Fixpoint glue_replay (sfx_sb sfx_pc : bytes) (sha : bytes -> hash) (ps : bytes -> bytes * bool)
+    (db_sb db_pc : list bytes) (order : list prefix) (reqs : list greq) (c1 c2 : cache) : list glue_out :=
+  match reqs with
+  | [] => []
+  | GReq p f s pc fs fp spelled _ _ _ _ :: r =>
+      let st := {| st_protection := p; st_filtering := f; st_safebrowsing := s; st_parental := pc |} in
+      let '((c1', c2'), out) :=
+        glue_check_host (check sha ps sfx_sb (3600 * ns_sec) (raw_service db_sb fs) order [] 0)
+                        (check sha ps sfx_pc (3600 * ns_sec) (raw_service db_pc fp) order [] 0)
+                        st spelled c1 c2 in
+      out :: glue_replay sfx_sb sfx_pc sha ps db_sb db_pc order r c1' c2'
+  end.
+
+Definition seen_agrees (m : option (bytes * check_out)) (o : option (bytes * option bytes)) : bool :=
+  match m, o with
+  | None, None => true
+  | Some (h, out), Some (h', q) => eqb_bytes h h' && eqb_option eqb_bytes (o_question out) q
+  | _, _ => false
+  end.
+
+Definition greq_ok (sha_tbl : list (bytes * bytes)) (ps_tbl : list (bytes * (bytes * bool)))
+    (r : greq) (out : glue_out) : bool :=
+  match r with
+  | GReq _ _ _ _ _ _ spelled osb opc oreason oerr =>
+      let name := caller_name spelled in
+      forallb (fun n => match lookup sha_tbl n with Some _ => true | None => false end)
+              (names_to_hash (ps_of ps_tbl) name) &&
+      match spelled, lookup ps_tbl name with [], _ => true | _, Some _ => true | _, None => false end &&
+      seen_agrees (g_sb out) osb && seen_agrees (g_pc out) opc &&
+      (reason_code (g_reason out) =? oreason) && Bool.eqb (g_err out) oerr
+  end.
+
+Definition glue_model (c : case) : list glue_out :=
+  match c with
+  | CaseGlue sfx_sb sfx_pc sha_tbl ps_tbl db_sb db_pc reqs =>
+      glue_replay sfx_sb sfx_pc (sha_of sha_tbl) (ps_of ps_tbl) db_sb db_pc
+                  (map (fun e => prefix_of (snd e)) sha_tbl) reqs [] []
+  | _ => []
   end.
 
 Definition case_ok (c : case) : bool :=
@@ -164,6 +228,7 @@ Definition case_ok (c : case) : bool :=
               (names_to_hash (ps_of ps_tbl) name) &&
       match lookup ps_tbl name with Some _ => true | None => false end &&
       Bool.eqb (o_blocked out) b && negb (o_err out) && eqb_option eqb_bytes (o_question out) q
+  | CaseGlue _ _ sha_tbl ps_tbl _ _ reqs => all2 (greq_ok sha_tbl ps_tbl) reqs (glue_model c)
   end.
 
 Definition mismatches := Base.Run.mismatches case_ok.
@@ -171,7 +236,7 @@ Definition mismatches := Base.Run.mismatches case_ok.
 (** For replay files: per step verdict, error, question, what each Set deleted
     and kept, cache in usage order (prefix, class, #hashes), bytes. *)
 Definition explain (c : case) :=
-  map (fun res : (list bytes * (Z * lru)) * option check_out * list set_ev =>
+  (map (fun res : (list bytes * (Z * lru)) * option check_out * list set_ev =>
     let '((_, (now, l)), out, evs) := res in
     (match out with
      | Some o => Some (o_blocked o, o_err o, o_question o)
@@ -179,4 +244,11 @@ Definition explain (c : case) :=
      end, evs,
      map (fun e : prefix * citem => (fst e, life_class now (snd e), length (c_hashes (snd e)))) (l_items l),
      l_size l))
-    (model_run c).
+    (model_run c),
+   (* glue cases: per request reason, error, and for each checker the name
+      it was called with and the question it sent *)
+   map (fun out : glue_out =>
+     let seen (m : option (bytes * check_out)) :=
+       match m with Some (h, o) => Some (h, o_question o) | None => None end in
+     (reason_code (g_reason out), g_err out, seen (g_sb out), seen (g_pc out)))
+    (glue_model c)).
